@@ -38,13 +38,18 @@ SITES = {
     "version-downgrade-through-first-client-hello":
         "conn.go pickVersionFromClientHello / negotiateVersionClient (supported_versions of the first ClientHello is "
         "unauthenticated; no downgrade sentinel in ServerHello.random)",
+    "server-commits-pre-hook-server-hello":
+        "internal/flight/flight12/flight4handler.go flight4Generate / flight4bhandler.go flight4bGenerate (values committed "
+        "before the ServerHello hook)",
     "client-signature-scheme-outside-policy":
         "internal/flight/flight12/flight5handler.go flight5Generate / flight13/flight5handler.go "
         "(SelectSignatureScheme over the server's list only)",
 }
 DEFAULT_SITE = "negotiation (cipher_suite.go, conn.go, internal/negotiation, flight12/flight13 hello handlers)"
 # associations the negotiation model does not describe (transport / FSM defects, reported by the monitors)
-UNMODELLED = ("dual-stack-client-and-server-deadlock", "dual-stack-client-cannot-read-serverhello-with-protected-flight")
+# (both dual-stack start-up defects, F20 and F21, are repaired: the model's verdict - the association completes on
+# DTLS 1.3 - is now compared for them as for every other pair; on a tree where they recur the monitors name them)
+UNMODELLED = ()
 
 
 def case_monitors(c):
@@ -52,7 +57,7 @@ def case_monitors(c):
     if not c11lib.both_built(c):
         return []
     out = list(c11lib.monitor_in_policy(c)) + list(c11lib.monitor_unsolicited(c)) + \
-        list(c11lib.monitor_ems_resumption(c)) + list(c11lib.monitor_sni_refusal(c))
+        list(c11lib.monitor_ems_resumption(c)) + list(c11lib.monitor_sni_refusal(c)) + list(c11lib.monitor_hook(c))
     dims = c11lib.empty_dimensions(c)
     if c11lib.both_ok(c):
         for d in dims:
